@@ -2,10 +2,21 @@
 from decimal import Decimal
 
 
-def canon(v, _depth=0):
-    """hashable-free canonical structure: distinguishes type class and, for numbers, the exact representation"""
-    if _depth > 50:
-        return ('deep',)
+class _Budget:
+    def __init__(self, n):
+        self.n = n
+
+
+def canon(v, _depth=0, _path=None, _budget=None):
+    """canonical structure: distinguishes type class and, for numbers, the exact representation.
+
+    Cycle-safe (a container met again on the current path becomes ('cycle',)) and bounded (after 300000 nodes the rest
+    becomes ('big',), identically for equal structures)."""
+    if _budget is None:
+        _budget = _Budget(300000)
+    _budget.n -= 1
+    if _budget.n < 0:
+        return ('big',)
     if v is None:
         return ('none',)
     if isinstance(v, bool):
@@ -18,12 +29,18 @@ def canon(v, _depth=0):
         return ('float', repr(v))
     if isinstance(v, str):
         return ('str', v)
-    if isinstance(v, list):
-        return ('list', [canon(x, _depth + 1) for x in v])
-    if isinstance(v, tuple):
-        return ('tuple', [canon(x, _depth + 1) for x in v])
-    if isinstance(v, dict):
-        return ('dict', [(canon(k, _depth + 1), canon(x, _depth + 1)) for k, x in v.items()])
+    if isinstance(v, (list, tuple, dict)):
+        if _path is None:
+            _path = set()
+        if id(v) in _path or _depth > 200:
+            return ('cycle',)
+        _path.add(id(v))
+        try:
+            if isinstance(v, dict):
+                return ('dict', [(canon(k, _depth + 1, _path, _budget), canon(x, _depth + 1, _path, _budget)) for k, x in v.items()])
+            return ('list' if isinstance(v, list) else 'tuple', [canon(x, _depth + 1, _path, _budget) for x in v])
+        finally:
+            _path.discard(id(v))
     if isinstance(v, slice):
         return ('slice', canon(v.start), canon(v.stop), canon(v.step))
     if callable(v):
